@@ -192,7 +192,19 @@ def _getlines_exempt(f: Func, bounds: "Bounds", s: ast.Subscript) -> str:
                 if isinstance(a, ast.Compare) and len(a.ops) == 1 and isinstance(a.ops[0], ast.Lt) and isinstance(a.left, ast.Name) \
                         and a.left.id == idx and isinstance(a.comparators[0], ast.Name):
                     B = a.comparators[0].id
-                    ds = bounds.defs.get(B) or []
+                    ds = []
+                    aug_ok = True
+                    for n_ in own_nodes(f.node):
+                        if isinstance(n_, ast.Assign) and any(isinstance(t_, ast.Name) and t_.id == B for t_ in n_.targets):
+                            ds.append(n_.value)
+                        elif isinstance(n_, ast.AnnAssign) and isinstance(n_.target, ast.Name) and n_.target.id == B and n_.value is not None:
+                            ds.append(n_.value)
+                        elif isinstance(n_, ast.AugAssign) and isinstance(n_.target, ast.Name) and n_.target.id == B:
+                            # `last += 1` (include the line feed) is the only adjustment allowed
+                            if not (isinstance(n_.op, ast.Add) and isinstance(n_.value, ast.Constant) and n_.value.value == 1):
+                                aug_ok = False
+                    if not aug_ok:
+                        return ""
 
                     def emark(e: ast.AST | None) -> bool:
                         if e is None:
@@ -204,6 +216,26 @@ def _getlines_exempt(f: Func, bounds: "Bounds", s: ast.Subscript) -> str:
                         return isinstance(e, ast.Subscript) and isinstance(e.value, ast.Attribute) and e.value.attr == "eMarks"
                     if ds and all(emark(d) for d in ds):
                         return _GETLINES_WHY
+                    params_ = [a_.arg for a_ in f.node.args.posonlyargs + f.node.args.args]
+                    if not ds and B in params_:
+                        # the bound is passed in: every caller passes eMarks[..] (+ 1), directly or through a local that holds it
+                        from ..interproc import actuals
+                        acts = actuals(bounds.c, f, B)
+                        ok_all = bool(acts)
+                        for (caller, a_, cs_) in acts:
+                            if emark(a_):
+                                continue
+                            if isinstance(a_, ast.Name):
+                                cds = [n_.value for n_ in own_nodes(caller.node) if isinstance(n_, ast.Assign)
+                                       and any(isinstance(t_, ast.Name) and t_.id == a_.id for t_ in n_.targets)]
+                                augs = [n_ for n_ in own_nodes(caller.node) if isinstance(n_, ast.AugAssign) and isinstance(n_.target, ast.Name)
+                                        and n_.target.id == a_.id]
+                                if cds and all(emark(d) for d in cds) and all(isinstance(g_.op, ast.Add) and isinstance(g_.value, ast.Constant)
+                                                                              and g_.value.value == 1 for g_ in augs):
+                                    continue
+                            ok_all = False
+                        if ok_all:
+                            return _GETLINES_WHY
         q = f.module.parents.get(q)
     return ""
 
